@@ -25,6 +25,11 @@ class VirtualToReal:
     self._import_references(previous)
     self._gfa._unregister_line(previous)
     self._gfa._register_line(self)
+    # the replaced line does not belong to the Gfa any more: a handle to it
+    # which the caller still holds cannot be used to rename or remove the
+    # line which took its place
+    previous._gfa = None
+    previous._refs = {}
     return None
 
   def _import_references(self, previous):
